@@ -309,6 +309,12 @@ def s2_accumulators(ctx):
         else:
             exp = {'buy_quantity': ZERO, 'sell_quantity': T.t_neg(qty), 'avg_bought': ZERO, 'avg_sold': price, 'buy_commission': ZERO, 'sell_commission': com}
         for k, e in exp.items():
+            got_ = f.get(k)
+            if got_ is None or got_ == ('var', k) or any(s_[0] in ('havoc',) or (s_[0] == 'call' and (s_[1][0] == 'fn' or s_[1] == ('ext', 'APPLY'))) for s_ in T.subterms(got_)):
+                # the new position does not show this accumulator as a field the constructor was handed (kept in a helper object, computed by a callee not read)
+                ctx.undecided('C03.S2', 'opening %s fill seeds %s' % ('buy' if pos else 'sell', k), ctx.fn('Position.open_from_transaction').site(),
+                              '%s = %s' % (k, fmt(got_) if got_ is not None else 'not a field of the constructed object'))
+                continue
             ctx.require(T.teq(f.get(k, ('var', '?')), e), 'C03.S2', 'opening %s fill seeds %s' % ('buy' if pos else 'sell', k),
                         ctx.fn('Position.open_from_transaction').site(), '%s = %s' % (k, fmt(f.get(k, ('var', '?')))), key='C03.S2|open|%s|%s' % (pos, k))
 
